@@ -1240,6 +1240,7 @@ func (x *c03) sliceNonEmptyAt(at ssa.Instruction, v ssa.Value, depth int) bool {
 func (x *c03) mapValuesAppended(m ssa.Value) bool {
 	// find the producer: parameter <- call site argument <- call result of a builder
 	var builder *ssa.Function
+	var localMap *ssa.MakeMap
 	var find func(v ssa.Value, f *ssa.Function, d int)
 	find = func(v ssa.Value, f *ssa.Function, d int) {
 		if d > 3 || builder != nil {
@@ -1250,6 +1251,9 @@ func (x *c03) mapValuesAppended(m ssa.Value) bool {
 			if g := flow.StaticCallee(y); g != nil && x.scope[g] {
 				builder = g
 			}
+		case *ssa.MakeMap:
+			// built where it is used: the function that makes the map is its builder
+			builder, localMap = y.Parent(), y
 		case *ssa.Parameter:
 			idx := paramIndex(y.Parent(), y)
 			for _, caller := range x.c.P.LibraryFuncs() {
@@ -1272,7 +1276,7 @@ func (x *c03) mapValuesAppended(m ssa.Value) bool {
 	okAll, n := true, 0
 	flow.Instrs(builder, func(in ssa.Instruction) {
 		mu, ok := in.(*ssa.MapUpdate)
-		if !ok {
+		if !ok || (localMap != nil && mu.Map != ssa.Value(localMap)) {
 			return
 		}
 		n++
@@ -2422,6 +2426,42 @@ func (x *c03) mapChainBounded(comp []*ssa.Function) string {
 				}
 				if !guarded {
 					return ""
+				}
+				continue
+			}
+			// the next key computed by a helper of the current one: every value it returns is the map's entry
+			// for its parameter, or a constant the recursion is guarded against
+			if hc, isCall := flow.Peel(a).(*ssa.Call); isCall && i < len(f.Params) {
+				h := flow.StaticCallee(hc)
+				if h == nil || h.Blocks == nil || len(h.Params) != 1 || len(hc.Call.Args) != 1 || flow.Peel(hc.Call.Args[0]) != ssa.Value(f.Params[i]) || len(flow.Loops(h)) > 0 {
+					return ""
+				}
+				for _, rv := range flow.ReturnValues(h, 0) {
+					if k, isK := rv.(*ssa.Const); isK {
+						guarded := false
+						for _, g := range flow.Guards(ci) {
+							if rl, ok := condRel(g.If.Cond, g.Taken); ok && rl.op == token.NEQ && flow.Peel(rl.a) == ssa.Value(f.Params[i]) && sameVal(rl.b, k) {
+								guarded = true
+							}
+						}
+						if !guarded {
+							return ""
+						}
+						continue
+					}
+					ex, ok := flow.Peel(rv).(*ssa.Extract)
+					if !ok || ex.Index != 0 {
+						return ""
+					}
+					lk, ok := ex.Tuple.(*ssa.Lookup)
+					if !ok || flow.Peel(lk.Index) != ssa.Value(h.Params[0]) {
+						return ""
+					}
+					gl := loadedGlobal(lk.X)
+					if gl == nil || (gmap != nil && gmap != gl) {
+						return ""
+					}
+					gmap = gl
 				}
 				continue
 			}
